@@ -79,7 +79,7 @@ def document(setup, collision, seq, nested, clip, ids):
         body = f'<g clip-path="url(#{ids or "s"})">{body}</g>'
     if nested:
         defs += '<rect id="nested-svg-viewport-0" width="1" height="1"/>'
-        body += '<svg x="50" y="50" width="40" height="40" viewBox="0 0 20 20"><rect width="30" height="10" fill="url(#g)"/></svg><use xlink:href="#nested-svg-viewport-0" x="95" y="95"/>'
+        body += '<svg x="50" y="50" width="40" height="40" viewBox="0 0 20 20"><rect width="30" height="10" fill="url(#g)"/></svg><svg x="5" y="85" width="30" height="12" viewBox="0 0 20 20"><circle cx="10" cy="10" r="15" fill="url(#g)"/></svg><use xlink:href="#nested-svg-viewport-0" x="95" y="95"/>'
     return f'<svg {NS} viewBox="0 0 100 100"><defs>{defs}</defs>{body}</svg>'
 
 
